@@ -101,6 +101,68 @@ def _stress(case, u):
 def execute(case):
     return {"runs": [_run(case, u) for u in UNITS], "stress": [_stress(case, u) for u in STRESS_UNITS]}
 
+
+def _ids(case):
+    """the identifiers of the segments of the main call, per unit, as text (compared across interpreter processes)"""
+    out = []
+    for u in UNITS:
+        clip = data.Clip(recording=_REC, start_time=case["s"] * u, end_time=case["e"] * u,
+                         uuid=uuid.UUID(int=1000 + (case["s"] + 1_000_000) * 1024 + case["e"]))
+        kw = {}
+        if case["h"]:
+            kw["hop"] = case["h"][0] * u
+        if case["inc"]:
+            kw["include_incomplete"] = True
+        try:
+            out.append([str(x.uuid) for x in segment_clip(clip, case["d"] * u, **kw)])
+        except Exception as ex:
+            out.append(["raise:" + type(ex).__name__])
+    return out
+
+
+XPROC_CASES = [{"s": 0, "e": 10, "d": 3, "h": [2], "inc": True}, {"s": 0, "e": 10, "d": 2, "h": [], "inc": False},
+               {"s": 5, "e": 6, "d": 1, "h": [4], "inc": True}, {"s": 3, "e": 40, "d": 7, "h": [5], "inc": True},
+               {"s": 100000, "e": 100020, "d": 3, "h": [1], "inc": False}, {"s": 1, "e": 2, "d": 5, "h": [], "inc": True}]
+
+
+def extra_observations(work, tier, seed):
+    """'Identifiers are a deterministic function of the parent identifier and the bounds' also ACROSS interpreter
+    processes: the same calls are made in two fresh interpreters with other hash seeds; ids_repeat of these observations
+    says that all three processes produced the same identifiers (anything derived from hash() of a str would differ)."""
+    import json, os, random, subprocess, sys
+    from pathlib import Path
+    from vt.engine import Machinery
+    rng = random.Random(seed)
+    cases = list(XPROC_CASES) + [{"s": rng.randrange(0, 50), "e": 0, "d": rng.randrange(1, 9), "h": rng.choice([[], [rng.randrange(1, 9)]]),
+                                  "inc": rng.random() < 0.5} for _ in range(10 if tier == "quick" else 60)]
+    for c in cases:
+        if not c["e"]:
+            c["e"] = c["s"] + rng.randrange(1, 60)
+    f = Path(work) / "xproc_cases.json"
+    f.write_text(json.dumps(cases))
+    here = _ids_all(cases)
+    others = []
+    for hs in ("101", "202"):
+        env = dict(os.environ, PYTHONHASHSEED=hs)
+        env["PYTHONPATH"] = os.pathsep.join(x for x in [os.environ.get("VERIF_SRC", ""), str(Path(__file__).resolve().parent.parent),
+                                                        os.environ.get("PYTHONPATH", "")] if x)
+        p = subprocess.run([sys.executable, "-c",
+                            "import json,sys; from checks import c14; print(json.dumps(c14._ids_all(json.load(open(sys.argv[1])))))", str(f)],
+                           capture_output=True, text=True, env=env, cwd=str(Path(__file__).resolve().parent.parent), timeout=600)
+        if p.returncode != 0:
+            raise Machinery("child interpreter for the cross-process identifiers failed: " + p.stderr[-400:])
+        others.append(json.loads(p.stdout.strip().splitlines()[-1]))
+    for k, c in enumerate(cases):
+        out = execute(c)
+        same = here[k] == others[0][k] == others[1][k]
+        for r in out["runs"]:
+            r["ids_repeat"] = bool(r["ids_repeat"] and same)
+        yield {"src": "xproc", "in": c, "out": out}
+
+
+def _ids_all(cases):
+    return [_ids(c) for c in cases]
+
 def random_cases(rng, tier):
     n = 1500 if tier == "quick" else 15000
     for k in range(n):
